@@ -109,7 +109,7 @@ theorem pres_moveG (c : Ctx) {α} (x : MFM α) (upd : MG → Except Exc α → M
   rw [withGhost_run]
   intro hok
   simp only [check_ok, Bool.and_eq_true] at hok
-  obtain ⟨hg, hsame⟩ := hok
+  obtain ⟨⟨hg, hsame⟩, _⟩ := hok
   obtain ⟨k, a, b, _, e⟩ := hs (hupd _ _ _ hg)
   have hm := sameMembers_iff hsame
   refine ⟨k, ?_, ?_, ?_, ?_⟩
@@ -226,7 +226,7 @@ theorem inv_gDepend {c : Ctx} {s : MG} {x : PS} {cert : Bool} (hs : Inv c s)
   obtain ⟨h1, h2, h3⟩ := gDepend_ok hok
   obtain ⟨lam, hl, hlx⟩ := isCand_iff h2
   have hclo' : Clo (bitsOf s.vertices) lam.bits := by rw [hlx]; exact hclo h1 h3
-  have hg : gDepend x cert s.ghost = { s.ghost.check cert "dep-cert" with cand := none } := by
+  have hg : gDepend x cert s.ghost = { s.ghost.check cert "dep-cert" with cand := none, verdict := true } := by
     unfold gDepend; rw [if_pos h2]
   exact inv_drop_cand hs h1 hl hclo' _ (by rw [hg]) (by rw [hg]; rfl) (by rw [hg]; rfl) hok
 
@@ -427,13 +427,13 @@ theorem pres_replaceG (c : Ctx) (v vNew : PS) : Pres (Inv c) (replaceG v vNew) :
     intro hok
     have hok' := hok
     simp only [check_ok, Bool.and_eq_true] at hok'
-    exact inv_same hs hok'.1 hok'.2 rfl (kd_replace v vNew s.mf) hok
+    exact inv_same hs hok'.1 hok'.2.1 rfl (kd_replace v vNew s.mf) hok
   | ok u =>
     simp only
     intro hok
     have hok' := hok
     simp only [check_ok, Bool.and_eq_true] at hok'
-    exact inv_replace hs hok'.1 rfl rfl rfl hok'.2.1 hok'.2.2 (kd_replace v vNew s.mf) hok
+    exact inv_replace hs hok'.1 rfl rfl rfl hok'.2.1.1 hok'.2.1.2 (kd_replace v vNew s.mf) hok
 
 end C02
 end PauLie
